@@ -181,9 +181,10 @@ pub fn c15(tier: &str, seed: u64, meta: &str) -> Report {
         let forced: Option<&String> = if i >= total { Some(&suspects[((i - total) / 2) as usize]) } else { None };
         // numbers are words too: digits followed by quotes / punctuation (no dictionary candidates, but the first
         // candidate still is the composed text with its quotes curled)
-        let digit_words = ["৫".to_string(), "১২".to_string(), "২০২৪".to_string()];
-        let forced: Option<&String> = if forced.is_none() && i % 25 == 19 { Some(&digit_words[(i / 25 % 3) as usize]) } else { forced };
-        let is_number = forced.map(|f| f.chars().all(|c| ('০'..='৯').contains(&c))).unwrap_or(false);
+        // characters the layout passes through unchanged (the composed text then equals the raw key text) behave like numbers here
+        let digit_words = ["৫".to_string(), "১২".to_string(), "২০২৪".to_string(), "^".to_string(), "^^".to_string()];
+        let forced: Option<&String> = if forced.is_none() && i % 25 == 19 { Some(&digit_words[(i / 25 % 5) as usize]) } else { forced };
+        let is_number = forced.map(|f| f.chars().all(|c| ('০'..='৯').contains(&c) || c == '^')).unwrap_or(false);
         // traditional joining, smart quotes, English, ANSI
         let bits = 64 | (((i % 2) as u32) << 2) | ((((i / 2) % 2) as u32) << 9) | ((((i / 4) % 2) as u32) << 7) | ((((i / 8) % 4 == 0) as u32) << 8);
         if !sessions.contains_key(&bits) {
@@ -205,7 +206,7 @@ pub fn c15(tier: &str, seed: u64, meta: &str) -> Report {
             if prefix.contains("র্য") && rng.chance(2, 3) { prefix = prefix.replacen("র্য", "র\u{200D}্য", 1); }
             else { let cs: Vec<char> = prefix.chars().collect(); let at = 1 + rng.below(cs.len()); prefix = cs[..at].iter().chain([if rng.chance(2, 3) { '\u{200D}' } else { '\u{200C}' }].iter()).chain(cs[at..].iter()).collect(); }
         }
-        let lead = if forced.is_some() { "" } else { *rng.pick(&["", "", "", "(", "\"", "'"][..]) };
+        let lead = if is_number && i % 2 == 0 { *rng.pick(&["\"", "'", ""][..]) } else if forced.is_some() { "" } else { *rng.pick(&["", "", "", "(", "\"", "'"][..]) };
         let trail = if is_number { *rng.pick(&["\"", "'", "'\"", "\".", ""][..]) } else if forced.is_some() { "" } else { *rng.pick(&["", "", "", "!!", ")", "\".", "'", "?!", ",", ";;"][..]) };
         // an independent vowel behind a consonant may also be typed as hasanta + vowel sign (the two merge into the
         // vowel: the composition changes although its length does not)
@@ -322,7 +323,10 @@ pub fn c16(tier: &str, seed: u64, meta: &str) -> Report {
                 let base = if rng.chance(1, 5) { rng.pick(&fpr.bn_names).clone() } else { rng.pick(&fpr.words).clone() };
                 let prefix: String = base.chars().take(1 + rng.below(base.chars().count().min(5))).collect();
                 let t = format!("{}{}{}", rng.pick(&["", "\"", "("][..]), prefix, rng.pick(&["", "\"", ")", "!"][..]));
-                match fpr.keys_for(&t) { Some(k) => k, None => continue }
+                let mut k = match fpr.keys_for(&t) { Some(k) => k, None => continue };
+                // now and then a letter from the AltGr plane of the layout (rare letters no dictionary word holds)
+                if rng.chance(1, 5) { let alt: Vec<&(u16, u8, String)> = fpr.km.keys.iter().filter(|x| x.1 != 0).collect(); if !alt.is_empty() { let x = rng.pick(&alt); let at = rng.below(k.len() + 1); k.insert(at, SEv::Key(x.0, x.1, 0)); } }
+                k
             };
             let mut raw = String::new();
             let mut shown = 1usize;
@@ -348,7 +352,9 @@ pub fn c16(tier: &str, seed: u64, meta: &str) -> Report {
                     };
                     for (cand, pre) in items {
                         if ansi {
-                            if cand == raw && raw.chars().any(|c| c.is_ascii_alphabetic()) { rep.fail(describe(s, "the raw typed (English / emoticon) text is offered as a candidate although ANSI output is on", json!({"candidate": cand}))); }
+                            // (in the fixed method the first candidate is the composed text itself, which a layout may make equal to the raw keys)
+                            let composed = match &st.out { Out::Full { aux, .. } => aux.clone(), _ => String::new() };
+                            if cand == raw && raw.chars().any(|c| c.is_ascii_alphabetic()) && !(!phonetic && cand == composed) { rep.fail(describe(s, "the raw typed (English / emoticon) text is offered as a candidate although ANSI output is on", json!({"candidate": cand}))); }
                             if is_emoji_str(&cand) { rep.fail(describe(s, "an emoji candidate is offered although ANSI output is on", json!({"candidate": cand}))); }
                             match (w.oracle.bijoy(&cand), pre) {
                                 (Some(exp), Ok(got)) => {
